@@ -407,7 +407,7 @@ def elf_evil_cases(seed, impl_only=False):
     k = 0
     for ph in range(min(phnum, 4)):
         base = phoff + 56 * ph
-        for field_off in (8, 16, 32, 40):      # p_offset, p_vaddr, p_filesz, p_memsz
+        for field_off in (8, 16, 32, 40, 48):      # p_offset, p_vaddr, p_filesz, p_memsz, p_align
             for v in evil:
                 big_ok = field_off == 40 and (1 << 18) < v <= (1 << 28)
                 if big_ok != impl_only:
@@ -419,6 +419,20 @@ def elf_evil_cases(seed, impl_only=False):
                 k += 1
     if impl_only:
         return lines
+    # combined: a segment at the very top of the address space whose file size exceeds its memory size
+    for ph in range(min(phnum, 3)):
+        base = phoff + 56 * ph
+        for vaddr, memsz, filesz in (((1 << 64) - 0x2000, 0x10, 0x2000), ((1 << 64) - 0x1000, 0x1000, 0x1000), ((1 << 64) - 0x1000, 1, 0x1001),
+                                     ((1 << 64) - 0x3000, 0x2000, 0x2001), ((1 << 63), 0x10, 0x2000), (0x401000, 0x10, 0x2000)):
+            m = bytearray(b)
+            struct.pack_into("<Q", m, base + 8, 0)
+            struct.pack_into("<Q", m, base + 16, vaddr)
+            struct.pack_into("<Q", m, base + 32, filesz)
+            struct.pack_into("<Q", m, base + 40, memsz)
+            struct.pack_into("<I", m, base, 1)
+            lines += ["case evil%d" % k, "elf " + bytes(m).hex(), "allregs " + " ".join("0" for _ in range(16)),
+                      "allxmm " + " ".join("0" for _ in range(16)), "dump", "end"]
+            k += 1
     for cut in sorted(set([0, 1, 15, 16, 17, 51, 52, 63, 64, 65, 0x77, 0x78, 0x79, len(b) // 2, len(b) - 1] + [rng.randrange(len(b)) for _ in range(20)])):
         lines += ["case cut%d" % cut, "elf " + (b[:cut].hex() or "-"), "allregs " + " ".join("0" for _ in range(16)),
                   "allxmm " + " ".join("0" for _ in range(16)), "dump", "end"]
@@ -548,10 +562,107 @@ def mask_dump(lines):
     return out
 
 
+IMPLICIT = {"Mul": ["RAX", "RDX"], "Imul": ["RAX", "RDX"], "Div": ["RAX", "RDX"], "Idiv": ["RAX", "RDX"],
+            "Cwd": ["RAX", "RDX"], "Cdq": ["RAX", "RDX"], "Cqo": ["RAX", "RDX"], "Cbw": ["RAX"], "Cwde": ["RAX"], "Cdqe": ["RAX"],
+            "Shl": ["RCX"], "Shr": ["RCX"], "Cpuid": ["RAX", "RBX", "RCX", "RDX"], "Push": ["RSP"], "Pushq": ["RSP"], "Pop": ["RSP"],
+            "Call": ["RSP"], "Retnq": ["RSP"], "Jrcxz": ["RCX"], "Jecxz": ["RCX"],
+            "Mov": ["RAX"]}       # moffs forms use the accumulator
+
+
+def parent64(name):
+    import instr_gen
+    if name in instr_gen.REGIDX:
+        return GPR_ORDER[instr_gen.REGIDX[name][0]] if True else None
+    if name in getattr(instr_gen, "REG8", {}):
+        return instr_gen.GPR64[instr_gen.REG8[name]]
+    hi = {"AH": "RAX", "BH": "RBX", "CH": "RCX", "DH": "RDX"}
+    return hi.get(name)
+
+
+TWIN_EXPLICIT = {}
+
+
+def gen_twin_instr_cases(seed, n):
+    """single instructions where only the registers the instruction names or implicitly uses are written
+    explicitly (through the register API); all others keep the constructor's random values"""
+    import instr_gen, isa_cmp
+    hs = harnesses()
+    cases, _ = instr_gen.generate(hs["release"], seed * 131 + 20, n)
+    lines = []
+    TWIN_EXPLICIT.clear()
+    k = 0
+    for c in cases:
+        code = c["codename"]
+        if isa_cmp.is_os(code):
+            continue
+        fam = code.split("_")[0]
+        named = set()
+        for r in c["named"]:
+            p64 = parent64(r)
+            if p64:
+                named.add(p64)
+        for r in IMPLICIT.get(fam, []):
+            named.add(r)
+        named.add("RSP")
+        cid = "tw%d:%s" % (k, code)
+        k += 1
+        order = {g: i for i, g in enumerate(instr_gen.GPR64)}
+        TWIN_EXPLICIT[cid] = named
+        L = ["case " + cid, "new %s %x %x" % (c["code"].hex(), c["rip"], c["rip"])]
+        for g in sorted(named):
+            L.append("regw 64 %s %x" % (g, c["regs"][order[g]]))
+        L.append("allxmm " + " ".join("%x" % v for v in c["xmm"]))
+        L.append("flags %x" % c["flags"])
+        if c["fs"]:
+            L.append("fsw %x" % c["fs"])
+        if c["gs"]:
+            L.append("gsw %x" % c["gs"])
+        for start, ln, prot, wins in c["areas"]:
+            L.append("zero %x %x" % (start, ln))
+            for w, data in sorted(wins.items()):
+                L.append("memw %x %s" % (w, data.hex()))
+            if prot != 3:
+                L.append("prot %x %x" % (start, prot))
+        L += ["dump", "step", "dump", "end"]
+        lines += L
+        lines += ["case " + cid + "#twin"] + L[1:]
+    return lines
+
+
+def instr_twin_compare(cid, a, b):
+    """a, b: result lines of two machines.  Registers the instruction names/uses must agree; every other
+    register must keep the value it had before the step (on each machine)."""
+    import instr_gen
+    named = TWIN_EXPLICIT[cid]
+
+    def dumps(r):
+        return [l.split() for l in r if l.startswith("d regs")]
+    da, db = dumps(a), dumps(b)
+    if len(da) != 2 or len(db) != 2:
+        return None
+    for k, g in enumerate(instr_gen.GPR64):
+        if g in named:
+            if da[1][3 + k] != db[1][3 + k]:
+                return "register %s differs between two machines given the same explicit inputs: %s vs %s" % (g, da[1][3 + k], db[1][3 + k])
+        else:
+            for d in (da, db):
+                if d[0][3 + k] != d[1][3 + k]:
+                    return "register %s is neither named nor implicitly used by the instruction, yet it changed (%s -> %s)" % (g, d[0][3 + k], d[1][3 + k])
+    if da[1][2] != db[1][2]:
+        return "RIP differs: %s vs %s" % (da[1][2], db[1][2])
+    ra = [l for l in a if not l.startswith(("d regs", "x "))]
+    rb = [l for l in b if not l.startswith(("d regs", "x "))]
+    if ra != rb:
+        first = next(((x, y) for x, y in zip(ra, rb) if x != y), ("", ""))
+        return "results differ: `%s` vs `%s`" % (first[0][:120], first[1][:120])
+    return None
+
+
 @prop("C20")
 def c20(tier, seed, **kw):
     n = 600 if tier == "quick" else 20000
     lines, hist = gen_twin_cases(seed, n)
+    ilines = gen_twin_instr_cases(seed, 3000 if tier == "quick" else 60000)
     hs = harnesses()
     blocks = blocks_of(lines)
     work = os.path.join(axv.BUILD, "c20")
@@ -568,6 +679,26 @@ def c20(tier, seed, **kw):
             raise axv.ImplRunnerDied("harness died in the twin run")
         runs.append(axv.parse_out(of, drop_x=True))
     violations, ncmp, nunw = [], 0, 0
+    # single instructions: only the named / implicitly used registers are written
+    icf = os.path.join(work, "icases.txt")
+    open(icf, "w").write("\n".join(ilines) + "\n")
+    iruns = []
+    for k in range(2):
+        of = os.path.join(work, "io%d.txt" % k)
+        rc = subprocess.run([hs["release"], "run", icf, of], env=env, stdout=subprocess.DEVNULL, stderr=subprocess.DEVNULL).returncode
+        if rc != 0:
+            raise axv.ImplRunnerDied("harness died in the instruction twin run")
+        iruns.append(axv.parse_out(of, drop_x=True))
+    iblocks = blocks_of(ilines)
+    ni = 0
+    for cid in iruns[0]:
+        if cid.endswith("#twin"):
+            continue
+        for what, other in (("same process", iruns[0].get(cid + "#twin", [])), ("another process", iruns[1].get(cid, []))):
+            ni += 1
+            msg = instr_twin_compare(cid, iruns[0][cid], other)
+            if msg and len(violations) < 3:
+                violations.append(("%s (%s)" % (msg, what), dict(case=iblocks[cid], run_a=iruns[0][cid], run_b=other)))
     for cid in runs[0]:
         if cid.endswith("#twin"):
             continue
@@ -601,5 +732,9 @@ def c20(tier, seed, **kw):
                     "syscall state, results and the checksum of every error text must agree; the unwritten registers must keep their values",
                histogram=hist, cases=len(runs[0]), distinct=len(set(tuple(b[1:]) for b in blocks.values())),
                samples=[list(blocks.values())[0]], broken=[], known=[], violations=violations,
-               extra=dict(comparisons=ncmp, unwritten_register_changes=nunw, processes=3))
+               extra=dict(comparisons=ncmp, unwritten_register_changes=nunw, processes=3, instruction_twin_comparisons=ni))
+    res["rule"] += ("; plus every dispatched instruction form executed once on twin machines where ONLY the registers it names or "
+                    "implicitly uses (table per mnemonic) were written: those registers, RIP, flags, memory and results must agree and "
+                    "every other register must keep its random initial value")
+    res["cases"] += len(iruns[0])
     return res
